@@ -251,6 +251,9 @@ static void check_periodic(Ctx &ctx, vproxy &px, std::string const &cvname, doub
       if (!half) {
         r.count("gradient_checks");
         if (!close_rel(g, 2.0 * diff, std::max(1.0, P), tolr, 1e-12)) viol(ctx, "grad-value", d3);
+        // the gradient with respect to the SECOND argument is the opposite
+        double gr = cv->dist2_rgrad(xa, xb).real_value;
+        if (!close_rel(gr, -2.0 * diff, std::max(1.0, P), tolr, 1e-12)) viol(ctx, "grad-with-respect-to-the-second-argument", d3.substr(0, d3.size() - 1) + ",\"rgrad\":" + num(gr) + "}");
       } else r.count("gradient_singular_skipped");
       // invariance under whole periods is implied by value == ref (ref is periodic); count explicitly
     }
@@ -313,6 +316,14 @@ static void check_component_metric(Ctx &ctx, vproxy &px, std::string const &cvna
       }
       if (singular) { r.count("gradient_singular_skipped"); continue; }
       r.count("gradient_checks");
+      {
+        // the gradient with respect to the second argument is the gradient with respect to the first one of the swapped pair
+        colvarvalue gr = cv->dist2_rgrad(mkv(a), mkv(b)), gl = cv->dist2_lgrad(mkv(b), mkv(a));
+        bool same = true;
+        if (gr.type() == colvarvalue::type_vector) { for (size_t k = 0; k < a.c.size(); k++) if (!close_rel(gr.vector1d_value[k], gl.vector1d_value[k], 1.0, 1e-12, 1e-13)) same = false; }
+        else { cvm::rvector dv = gr.rvector_value - gl.rvector_value; if (dv.norm() > 1e-12 * std::max(1.0, gl.rvector_value.norm())) same = false; }
+        if (!same) { viol(ctx, "grad-with-respect-to-the-second-argument", det + "}"); continue; }
+      }
       double h = 1e-4;
       for (size_t k = 0; k < a.c.size(); k++) {
         V t; t.c.assign(a.c.size(), 0.0); t.c[k] = 1.0;
@@ -442,6 +453,11 @@ int main(int argc, char **argv)
     for (size_t k = 0; k < rfrac.size(); k++)
       conf += "colvar { name rep_" + rc.comp + "_" + std::to_string(k) + "\n " + rc.comp + " {\n " +
               (k ? "wrapAround " + num(rfrac[k] * rc.P) + "\n " : std::string("")) + rc.body + "} }\n";
+  // a sum of two periodic components of the same period is periodic: its reported value lies in the interval too;
+  // a periodic plus a non-periodic component is NOT periodic: its metric is the plain one
+  std::string dih = " dihedral {\n group1 { atomNumbers 1 }\n group2 { atomNumbers 2 }\n group3 { atomNumbers 3 }\n group4 { atomNumbers 4 }\n }\n";
+  conf += "colvar { name sum2\n" + dih + dih + "}\n";
+  conf += "colvar { name mix\n" + dih + " distance {\n group1 { atomNumbers 1 }\n group2 { atomNumbers 2 }\n }\n}\n";
   if (px->config(conf) != 0) { fprintf(stderr, "HARNESS-ERROR: config failed: %s\n", px->errtxt.c_str()); return 3; }
 
   Ctx c{&total, ""};
@@ -480,6 +496,21 @@ int main(int argc, char **argv)
     c.tname = "component:distancePairs"; check_component_metric(c, *px, "dp", gv2, false, 0.0);
     c.tname = "component:cartesian"; check_component_metric(c, *px, "ca", gv3, false, 0.0);
   }
+  {
+    colvar *mx = px->cv("mix");
+    c.tname = "non-periodic-combination:dihedral+distance";
+    for (double a : {360.0, 400.0, -200.0})
+      for (double b : {0.0, 30.0}) {
+        total.count("evaluations");
+        colvarvalue xa(a), xb(b);
+        double d2 = mx->dist2(xa, xb), g = mx->dist2_lgrad(xa, xb).real_value, gr = mx->dist2_rgrad(xa, xb).real_value;
+        std::string det = "{\"variable\":\"dihedral + distance (declared not periodic)\",\"a\":" + num(a) + ",\"b\":" + num(b) + ",\"dist2\":" + num(d2) + ",\"grad\":" + num(g) + "}";
+        if (mx->is_enabled(colvardeps::f_cv_periodic)) { viol(c, "declared-periodic", det); continue; }
+        if (!close_rel(d2, (a - b) * (a - b), 1.0, 1e-12, 1e-13)) viol(c, "dist2-value", det);
+        else if (!close_rel(g, 2.0 * (a - b), 1.0, 1e-12, 1e-13) || !close_rel(gr, -2.0 * (a - b), 1.0, 1e-12, 1e-13)) viol(c, "grad-value", det);
+        total.seen("nontrivial", fnv("mix" + num(a) + num(b)));
+      }
+  }
   // reported values: a sweep of geometries through the whole period (the angle about z of atom 1, the torsion of atoms 1-4,
   // the rigid body turned about x, about z and about a tilted axis; for distanceZ the height of atom 1)
   {
@@ -507,6 +538,17 @@ int main(int argc, char **argv)
           px->x[4 + k] = cvm::rvector(rp.c[1] + 0.7, rp.c[2] - 0.4, rp.c[3] + 0.1 * mode);
         }
         if (px->step(step++) != 0) { fprintf(stderr, "library failed a step on the sweep: %s\n", px->errtxt.c_str()); return 3; }
+        {
+          colvar *s2 = px->cv("sum2"), *d0 = px->cv("rep_dihedral_0");
+          double v = s2->value().real_value, twice = 2.0 * d0->value().real_value;
+          total.count("evaluations"); total.count("reported_value_checks");
+          c.tname = "reported:sum-of-two-dihedrals";
+          std::string det = "{\"variable\":\"sum of two identical dihedrals\",\"sweep\":" + std::to_string(mode) + ",\"angle\":" + num(ang) + ",\"reported\":" + num(v) + ",\"twice_the_dihedral\":" + num(twice) + "}";
+          double kk = (v - twice) / 360.0;
+          if (!s2->is_enabled(colvardeps::f_cv_periodic)) viol(c, "sum-of-periodic-components-not-periodic", det);
+          else if (!std::isfinite(v) || std::fabs(kk - std::round(kk)) > 1e-9) viol(c, "reported-value-not-equivalent", det);
+          else if (v < -180.0 - 1e-9 || v > 180.0 + 1e-9) viol(c, "reported-value-outside-interval", det);
+        }
         for (auto &rc : rcs) {
           colvar *cv0 = px->cv("rep_" + rc.comp + "_0");
           double v0 = cv0->value().real_value;
